@@ -430,6 +430,61 @@ def derivative_cases() -> list[tuple[str, str, dict]]:
     # with another formal symbol, by the number of arguments only, or not at all
     for style in ("declared-t", "declared-other", "nargs", "undeclared"):
         out += _derivative_cases(style)
+    out += multi_variable_cases()
+    return out
+
+
+def multi_variable_cases() -> list[tuple[str, str, dict]]:
+    """partial derivatives of vector functions of two scalars, every order of up to three
+    differentiations (x,y / y,x / x,y,x / x,x,y / ...), through .diff, vector_diff and an
+    unevaluated VectorDerivative evaluated afterwards"""
+    from symplyphysics.core.experimental.vectors import (VectorFunction, VectorDot, VectorCross,
+        VectorDerivative, vector_diff, VectorSymbol)
+    xx, yy = sp.Symbol("x", real=True), sp.Symbol("y", real=True)
+    fs = [VectorFunction(n, [xx, yy]) for n in "uv"]
+    comp = {}
+    for n, f in zip("uv", fs):
+        comp[f(xx, yy)] = tuple(sp.Function(f"{n}{i}")(xx, yy) for i in (1, 2, 3))
+    const = VectorSymbol("k")
+    comp[const] = sp.symbols("k1:4", real=True)
+    u, v = (f(xx, yy) for f in fs)
+    g = sp.Function("g")(xx, yy)
+    exprs = {"u": lambda: u, "x^2*y*k+u": lambda: xx**2 * yy * const + u, "g*u": lambda: g * u,
+        "dot(u,v)": lambda: VectorDot(u, v), "cross(u,v)": lambda: VectorCross(u, v),
+        "cross(u,k)": lambda: VectorCross(u, const)}
+    orders = [seq for n in (2, 3) for seq in itertools.product((xx, yy), repeat=n)]
+    out = []
+    for name, mk in exprs.items():
+        for seq in orders:
+            for via in ("diff", "vector_diff", "VectorDerivative.doit"):
+                tag = f"d/d{''.join(str(s_) for s_ in seq)} {name} [{via}]"
+                case = {"multi": tag}
+                try:
+                    with time_limit(30):
+                        e = mk()
+                        base = lib_eval(e, comp)
+                        if via == "diff":
+                            d = e.diff(*seq)
+                        elif isinstance(base, tuple):
+                            d = vector_diff(e, *seq) if via == "vector_diff" else VectorDerivative(e,
+                                *seq).doit()
+                        else:
+                            continue  # the vector entry points are for vector-valued expressions
+                        got = lib_eval(d, comp)
+                        want: Any = tuple(sp.diff(c, *seq) for c in base) if isinstance(base, tuple) \
+                            else sp.diff(base, *seq)
+                        ok = same_fn(got, want)
+                except CaseTimeout:
+                    out.append((tag, "differentiation does not terminate within 30 s", case))
+                    continue
+                except (RecursionError, NotVector) as ex:
+                    out.append((tag, f"differentiation fails: {type(ex).__name__}", case))
+                    continue
+                except NotImplementedError:
+                    out.append((tag, "", case))
+                    continue
+                out.append((tag, "" if ok else f"derivative {short(d, 160)} differs from the "
+                    f"component-wise derivative", case))
     return out
 
 
